@@ -10,6 +10,12 @@ TEST_CMD = "cd /repo && /venv/bin/python -m pytest -ra -q -p no:cacheprovider --
 
 # id -> (level, technique, text, note, design_ref)
 CHECKS = {
+ "C08": ("model_checking", "TLC on spec/Optim.tla (exact rational SGD/Adam/AdamW trajectories) + replay of every emitted history on real optimizers",
+         "every interleaving of backward/zero_grad/step/freeze up to MaxHist over dyadic hyper-parameter grids; parameter values, storage identity, dtype, shape compared after every call",
+         "Adam restricted to rational-square-root behaviours; SGD maximize+weight_decay accepts either documented variant", "5/C08"),
+ "C12": ("model_checking", "TLC on spec/Modules.tla (registries, parameters() dedup, mode propagation) + replay of every emitted history on real nn.Module objects",
+         "all registration histories up to MaxHist incl. sharing, re-assignment to None/other, Sequential(list|dict); parameters()/submodules()/num_params()/training/requires_grad/grad and Sequential call order compared",
+         "acyclic module graphs; bounded histories + TLC -simulate", "5/C12"),
  "C01": ("model_checking", "TLC case machine spec/OpCatalog.tla over spec/TensorAlg.tla (VJP derived from forward definitions) + replay of every case",
          "every (op, arguments, shapes) case within the stated grids is emitted by TLC with the exact expected VJP for basis/negative/generic/ones gradients and replayed in f32 and f64 for every requires-grad subset",
          "rational operand patterns; named real functions interpreted with mpmath; grids in evidence", "5/C01"),
